@@ -90,6 +90,7 @@ type Sched struct {
 	endCh   chan pathEnd
 	multi   bool
 	mutexes map[*value]*mutexState
+	pools   map[*value][]value // sync.Pool contents, keyed by the pool variable
 	conds   map[*value]*condState
 	wgs     map[*value]*wgState
 	atomVC  map[any][]int
@@ -102,7 +103,7 @@ type Sched struct {
 }
 
 func newSched(in *Interp) *Sched {
-	return &Sched{in: in, endCh: make(chan pathEnd, 64), mutexes: map[*value]*mutexState{}, conds: map[*value]*condState{},
+	return &Sched{in: in, endCh: make(chan pathEnd, 64), mutexes: map[*value]*mutexState{}, pools: map[*value][]value{}, conds: map[*value]*condState{},
 		wgs: map[*value]*wgState{}, atomVC: map[any][]int{}, cells: map[any]*cellMeta{}, raceSeen: map[string]bool{}}
 }
 
@@ -929,4 +930,28 @@ func (s *Sched) waitQuiescent() {
 			s.cur.vc = joinVC(s.cur.vc, t.vc)
 		}
 	}
+}
+
+// sync.Pool: Put stores the item; Get hands back a stored item (most recent first) or, by a
+// recorded choice, behaves as if the pool had been emptied (the runtime may drop pooled items at
+// any time) and calls New. Both are scheduling points on the pool; a Put happens before the Get
+// that returns its item.
+func (s *Sched) poolPut(p Ptr, x value) {
+	m := s.mutex(p)
+	s.syncPoint(&SyncOp{kind: "Pool.Put", obj: m, enabled: func() bool { return true }, completed: -1})
+	s.release(&m.vc)
+	s.pools[p.p] = append(s.pools[p.p], x)
+}
+
+func (s *Sched) poolGet(p Ptr) (value, bool) {
+	m := s.mutex(p)
+	s.syncPoint(&SyncOp{kind: "Pool.Get", obj: m, enabled: func() bool { return true }, completed: -1})
+	items := s.pools[p.p]
+	if len(items) == 0 || s.in.chooseN(2, 'c') == 1 {
+		return nil, false
+	}
+	x := items[len(items)-1]
+	s.pools[p.p] = items[:len(items)-1]
+	s.acquire(m.vc)
+	return x, true
 }
